@@ -67,6 +67,13 @@ func runC06(t *sim.T, tier string) *sim.Violation {
 		b := gen.MarshalFeed(msg)
 		inputs = append(inputs, c06Input{0, b, fmt.Sprintf("rt%d(%dB)", i, len(b))})
 		if t.Chance(1, 4) {
+			if sib, n := gen.IrregularIDs(t, msg); n > 0 {
+				sb := gen.MarshalFeed(sib)
+				inputs = append(inputs, c06Input{0, sb, fmt.Sprintf("rt%d-irregular-ids(%d)", i, n)})
+				t.Probe("irregular-id-sibling")
+			}
+		}
+		if t.Chance(1, 4) {
 			if nb, d := gen.ReorderWire(t, b); d != "" {
 				inputs = append(inputs, c06Input{0, nb, fmt.Sprintf("rt%d-reordered(%s)", i, d)})
 			}
